@@ -650,14 +650,111 @@ type Function struct {
 }
 
 func WriteStrings(out *strings.Builder, list []Object, before, sep, after string) {
-	out.WriteString(before)
+	w := inspector{out: out}
+	w.list(list, before, sep, after, 0)
+}
+
+// MaxInspectDepth is the nesting of arrays and maps beyond which Inspect() writes ... instead of their content:
+// a million levels (a = [a] in a loop) would otherwise be a fatal Go stack overflow.
+const MaxInspectDepth = 10_000
+
+// inspector is Inspect() into a shared builder: nested arrays and maps are written in place, in linear time,
+// instead of each level building the string of its elements and its container copying it again.
+type inspector struct {
+	out    *strings.Builder
+	source bool // spell floats and the smallest integer so that they read back as the same value (for saving).
+	cut    bool // something was nested deeper than MaxInspectDepth and written as ...
+}
+
+// DeeperThan tells if arrays and maps are nested more than n levels inside o (the walk stops there).
+// For code that hands values to recursive library functions (fmt, encoding/json) whose stack use can't be bounded.
+func DeeperThan(o Object, n int) bool {
+	o = Value(o)
+	if t := o.Type(); t != ARRAY && t != MAP {
+		return false
+	}
+	if n <= 0 {
+		return true
+	}
+	if m, ok := o.(Map); ok {
+		for _, kv := range m.mapElements() {
+			if DeeperThan(kv.Key, n-1) || DeeperThan(kv.Value, n-1) {
+				return true
+			}
+		}
+		return false
+	}
+	for _, e := range Elements(o) {
+		if DeeperThan(e, n-1) {
+			return true
+		}
+	}
+	return false
+}
+
+func (w *inspector) object(o Object, depth int) {
+	switch v := o.(type) {
+	case SmallArray:
+		w.list(v.smallArr[:v.len], "[", ",", "]", depth)
+	case BigArray:
+		w.list(v.elements, "[", ",", "]", depth)
+	case *BigArray:
+		w.list(v.elements, "[", ",", "]", depth)
+	case SmallMap:
+		w.pairs(v.smallKV[:v.len], depth)
+	case *BigMap:
+		w.pairs(v.kv, depth)
+	case Reference:
+		w.object(v.ObjValue(), depth)
+	case Float:
+		str := v.Inspect()
+		w.out.WriteString(str)
+		if w.source && !math.IsNaN(v.Value) && !math.IsInf(v.Value, 0) && !strings.ContainsAny(str, ".e") {
+			w.out.WriteString(".0") // Inspect prints 1.0 as 1.
+		}
+	case Integer:
+		if w.source && v.Value == math.MinInt64 {
+			w.out.WriteString("(-9223372036854775807-1)") // not minus an out of range literal.
+			return
+		}
+		w.out.WriteString(v.Inspect())
+	default:
+		w.out.WriteString(o.Inspect())
+	}
+}
+
+func (w *inspector) list(list []Object, before, sep, after string, depth int) {
+	w.out.WriteString(before)
+	if depth >= MaxInspectDepth && len(list) > 0 {
+		w.out.WriteString("...")
+		w.cut = true
+		list = nil
+	}
 	for i, p := range list {
 		if i > 0 {
-			out.WriteString(sep)
+			w.out.WriteString(sep)
 		}
-		out.WriteString(p.Inspect())
+		w.object(p, depth+1)
 	}
-	out.WriteString(after)
+	w.out.WriteString(after)
+}
+
+func (w *inspector) pairs(kvs []keyValuePair, depth int) {
+	w.out.WriteString("{")
+	if depth >= MaxInspectDepth && len(kvs) > 0 {
+		w.out.WriteString("...")
+		w.cut = true
+		kvs = nil
+	}
+	for i, kv := range kvs {
+		if i > 0 {
+			w.out.WriteString(",")
+		}
+		w.object(kv.Key, depth+1)
+		w.out.WriteString(":")
+		w.object(kv.Value, depth+1)
+	}
+	w.out.WriteString("}")
 }
 
 func (f Function) Unwrap(forceStringKeys bool) any {
@@ -1097,31 +1194,15 @@ func (m SmallMap) Inspect() string {
 		return "{}"
 	}
 	out := strings.Builder{}
-	out.WriteString("{")
-	for i := range m.len {
-		if i > 0 {
-			out.WriteString(",")
-		}
-		out.WriteString(m.smallKV[i].Key.Inspect())
-		out.WriteString(":")
-		out.WriteString(m.smallKV[i].Value.Inspect())
-	}
-	out.WriteString("}")
+	w := inspector{out: &out}
+	w.pairs(m.smallKV[:m.len], 0)
 	return out.String()
 }
 
 func (m *BigMap) Inspect() string {
 	out := strings.Builder{}
-	out.WriteString("{")
-	for i, kv := range m.kv {
-		if i != 0 {
-			out.WriteString(",")
-		}
-		out.WriteString(kv.Key.Inspect())
-		out.WriteString(":")
-		out.WriteString(kv.Value.Inspect())
-	}
-	out.WriteString("}")
+	w := inspector{out: &out}
+	w.pairs(m.kv, 0)
 	return out.String()
 }
 
